@@ -32,7 +32,6 @@ theorem lockProg_follows_shape' (b : Backend) (op : Op) (m : Nat) (h : methodOf 
   cases b
   · -- memory
     cases op <;> simp only [methodOf, Option.some.injEq, reduceCtorEq] at h <;> subst h
-    case saveMessage m => exact ⟨[lkInnerR, lkInnerW], by rfl, follows_cta _ _ _ _ _⟩
     case snapCreate g n ts =>
       refine ⟨[lkInnerR, lkSnapsW], by rfl, rfl, ?_⟩
       intro s; exact follows_atomic _ _ _
@@ -86,7 +85,6 @@ theorem readsPure_cta {σ ρ : Type} (lk1 : Lock) (l2 : Nat) (chk : σ → Bool)
 theorem lockProg_readsPure' (b : Backend) (op : Op) : (lockProg b op).readsPure := by
   cases b
   · cases op
-    case saveMessage m => exact readsPure_cta _ _ _ _ _
     case snapCreate g n ts =>
       refine ⟨fun _ _ => rfl, ?_⟩
       intro s; exact readsPure_atomic_w _ _
@@ -167,10 +165,6 @@ theorem lockProg_run (b : Backend) (op : Op) (s : Store) (hb : s.backend = b) :
     (lockProg b op).run s = Store.step s op := by
   cases b
   · cases op
-    case saveMessage m =>
-      simp only [lockProg, memProg, run_cta]
-      simp only [Store.step, saveMessage, hb, okErr, exists?, isNone_not]
-      by_cases hx : (findGroup s m.gid).isSome = true <;> simp [hx]
     case snapCreate g n ts =>
       simp [lockProg, memProg, Prog.run, run_atomic, Store.step, snapCreate, hb, okErr]
     case snapRollback g n => exact mem_rollback_run s hb g n
